@@ -143,6 +143,28 @@ func (q *Queue[T]) Values() []any {
 }
 
 // Purge clears all elements from the queue
+// Drain removes all items from the queue and returns them, in one step under the lock.
+// Unlike Values followed by Purge it cannot lose an item enqueued in between.
+func (q *Queue[T]) Drain() []any {
+	q.mx.Lock()
+	defer q.mx.Unlock()
+
+	values := make([]any, 0)
+	for chunk := q.readChunk; chunk != nil; chunk = chunk.Next {
+		for i := chunk.NextReadIndex; i < chunk.NextWriteIndex; i++ {
+			values = append(values, chunk.Data[i])
+		}
+	}
+
+	chunk := linkedbuffer.NewChunk[T](initialBufferCapacity)
+	q.readChunk = chunk
+	q.writeChunk = chunk
+	q.readCount.Store(0)
+	q.writeCount.Store(0)
+
+	return values
+}
+
 func (q *Queue[T]) Purge() {
 	q.mx.Lock()
 	defer q.mx.Unlock()
